@@ -5,7 +5,7 @@ from . import auto
 
 PROP = 'C12'
 PREDICATE = 'C12'
-LEAN_TARGETS = ['LLTD.Props.C12']
+LEAN_TARGETS = ['LLTD.Props.C12', 'LLTD.Props.C12T']
 VARIANT = 'plain'
 RULE = ('seeded random schedules (length 50..500) over one interface: tick (port wired as the Darwin daemon does), clock advance '
         '0..120000 ms (dense at 99/100/999/1000/1001), session add/refresh/complete/remove/clear, Hello heard, the direct field '
